@@ -4,9 +4,7 @@ import json, os, importlib, sys
 V = os.path.dirname(os.path.dirname(os.path.abspath(__file__)))
 sys.path.insert(0, os.path.join(V, 'engine', 'rules'))
 props = [json.loads(l) for l in open(os.path.join(V, 'properties.jsonl'))]
-NA = {
-    'C17': 'conformance of arithmetic/bitwise/memory/hash instructions to the Yellow Paper quantifies over 2^256 operand values and generated programs; no syntactic, dataflow or type-level argument bounds those values (the structural opcode/arity part is checked under C18)',
-}
+NA = {}
 checks, na = [], []
 for p in props:
     pid = p['id']
